@@ -81,6 +81,22 @@ func main() {
 			os.Exit(2)
 		}
 		dumpCensus(w)
+	case "funcs":
+		w, err := LoadWorld("", nil)
+		if err != nil {
+			fmt.Println(err)
+			os.Exit(2)
+		}
+		var names []string
+		for _, f := range w.AllFuncs {
+			if f.Parent() == nil {
+				names = append(names, FuncName(f))
+			}
+		}
+		sort.Strings(names)
+		for _, n := range names {
+			fmt.Println(n)
+		}
 	case "selftest":
 		os.Exit(selftestMain(os.Args[2:]))
 	case "mutant":
